@@ -77,6 +77,7 @@ PROPS = {
     },
     "C08": {
         "profile": "hist", "n_quick": 5, "n_thorough": 40, "nops": 18, "nlists": 3, "cfgs": SIX,
+        "corpus": ["fork_partial_none", "fork_partial_shallow_other", "fork_partial_shallow_fork", "fork_partial_always"],
         "monitor": None,
         "relevant": M.relevant_by(M.proj({"N", "MN", "X", "MX"}, keep_snap=True)),
         "rule": "nested machines, each submachine with a random history policy (none / always / shallow on 1-2 event "
@@ -111,7 +112,8 @@ PROPS = {
         "assumptions": ["exceptions derive from std::exception; no_exception_thrown is not configured"],
     },
     "C09": {
-        "profile": "pseudo", "n_quick": 5, "n_thorough": 40, "nops": 18, "nlists": 3, "cfgs": SIX,
+        "profile": "pseudo", "n_quick": 5, "n_thorough": 40, "nops": 18, "nlists": 3,
+        "cfgs": SIX + ["back:p3", "back:p2", "back_fct:p3", "mp11:p3", "mp11_fct:p1"],
         "corpus": ["exitpt_outside", "fork_partial_none", "fork_partial_shallow_other", "fork_partial_shallow_fork", "fork_partial_always"],
         "monitor": None,
         "relevant": M.relevant_by(M.proj(M.ALL, keep_res=True, keep_snap=True, keep_ev=True)),
@@ -197,6 +199,7 @@ PROPS = {
     "C19": {
         "profile": "nest", "n_quick": 3, "n_thorough": 16, "nops": 14, "nlists": 3,
         "cfgs": POL("back") + POL("back11") + POL("mp11") + ["back_fct:p1", "back_fct:p2", "mp11_fct:p3", "mp11_fct:p1", "mp11_fpa:p2"],
+        "corpus": ["exitpt_outside", "rowkind_ep_row", "rowkind_ep_arow", "rowkind_ep_grow", "rowkind_ep_norow"],
         "monitor": M.mon_C19,
         "relevant": M.relevant_by(M.proj(M.ALL, keep_obs=True)),
         "rule": "seeded random nested machines (profile nest) x 4 policies x engines; every taken external transition "
